@@ -1,7 +1,7 @@
 (* C19 — BitMap tracks each sequence residue independently.
    This file holds only the property theorems, their pinned statements and Print Assumptions. *)
 From Coq Require Import List NArith Bool.
-From DC Require Import BitMap.Model BitMap.Proofs.
+From DC Require Import BitMap.Model BitMap.Proofs BitMap.Concurrent.
 Import ListNotations.
 Open Scope N_scope.
 
@@ -40,7 +40,16 @@ Theorem C19_aliasing_refuted :
   exists c h s, c = 2 ^ 3 /\ is_set_orig (run_orig c h) s <> spec c h s.
 Proof. exact orig_aliasing_refuted. Qed.
 
+(* concurrent calls on distinct residues: every call being one atomic read-modify-write (checked on the hooked
+   implementation), a concurrent execution is an interleaving l of one thread's calls l1 with the others' calls l2; every
+   residue that only that thread addresses ends up exactly as its own calls leave it, whatever the interleaving *)
+Theorem C19_concurrent_calls_on_other_residues_invisible : forall k l1 l2 l s,
+  merge l1 l2 l -> forallb (fun o => negb (addressed (2 ^ k) s o)) l2 = true ->
+  is_set (run (2 ^ k) l) s = is_set (run (2 ^ k) l1) s.
+Proof. exact interleaving_invisible. Qed.
+
 Print Assumptions C19_refines_residue_set.
+Print Assumptions C19_concurrent_calls_on_other_residues_invisible.
 Print Assumptions C19_last_addressed_op_decides.
 Print Assumptions C19_never_addressed_is_clear.
 Print Assumptions C19_other_residue_frame.
